@@ -11,13 +11,19 @@
 (* "the marginal quantile always draws from the global stream" (defect D14, repaired).     *)
 EXTENDS Integers, Sequences, TLC
 
-CONSTANTS NPts, Need, ThreadMarginal
+CONSTANTS NPts, Need, ThreadMarginal,
+          CacheFeedsMarginal   \* deviation: once the lazy sample cache is filled (from the global stream),
+                               \* the marginal quantile is read from it instead of a seeded draw
 
 RandomStates == {"none", "seedA", "seedB"}
-VARIABLES glob, rsof, res, n
-vars == <<glob, rsof, res, n>>
+VARIABLES glob, rsof, res, n, cache
+vars == <<glob, rsof, res, n, cache>>
 
-Init == glob = 0 /\ rsof = <<>> /\ res = <<>> /\ n = 0
+Init == glob = 0 /\ rsof = <<>> /\ res = <<>> /\ n = 0 /\ cache = <<>>
+
+(* empirical_cdf / .sample fill the model's lazy sample cache from the global stream *)
+FillCache == /\ cache = <<>> /\ cache' = <<"global", glob>> /\ glob' = glob + Need
+             /\ UNCHANGED <<rsof, res, n>>
 
 Draw(rs, g) == IF rs = "none" THEN <<"global", g>> ELSE <<rs, 0>>
 Adv(rs, g) == IF rs = "none" THEN g + Need ELSE g
@@ -29,15 +35,17 @@ Cond(rs, g, i) == IF i > NPts THEN [draws |-> <<>>, g |-> g]
 Compute(rs) ==
     /\ n < 3
     /\ LET mrs == IF ThreadMarginal THEN rs ELSE "none"
-           m == Draw(mrs, glob)
-           g1 == Adv(mrs, glob)
+           fromcache == CacheFeedsMarginal /\ cache # <<>>
+           m == IF fromcache THEN cache ELSE Draw(mrs, glob)
+           g1 == IF fromcache THEN glob ELSE Adv(mrs, glob)
            c == Cond(rs, g1, 1)
        IN /\ res' = Append(res, <<m>> \o c.draws)
           /\ glob' = c.g
     /\ rsof' = Append(rsof, rs)
     /\ n' = n + 1
+    /\ UNCHANGED cache
 
-Next == \E rs \in RandomStates : Compute(rs)
+Next == FillCache \/ \E rs \in RandomStates : Compute(rs)
 Spec == Init /\ [][Next]_vars
 
 Reproducible == \A i, j \in 1..Len(res) : rsof[i] = rsof[j] /\ rsof[i] # "none" => res[i] = res[j]
